@@ -161,6 +161,11 @@ class FileSystemController:
         # write CatalogEntry in sector
 
         bat = self._bat
+        for trackTwentyBlock in (40, 41):
+            # the blocks of track 20 hold this table and the catalog : a side that was never
+            # formatted shows them as free, they are not
+            if bat[trackTwentyBlock].isFree():
+                bat[trackTwentyBlock].reserve()
         dataLen = len(content)
 
         requiredSectorLength, usageOfLastSector = (
